@@ -164,6 +164,9 @@ class FatAreaAdapter(Adapter):
                     else:
                         break
 
+                if len(subpath_links) >= FAT_NUM_ENTRIES:
+                    raise ConstructError("Encountered loop in FAT.")
+
                 subpath_links.append(subpath_index)
 
                 if FAT_IS_END_F(value):
